@@ -39,3 +39,7 @@
 (assert (forall ((s String) (fd Int)) (! (=> (dec64_ok s fd) (not (fp.isNaN (parse_float s)))) :pattern ((dec64_ok s fd)))))
 ; the length restriction object of a string type (schema.String.Len()): a pointer to a schema.Length
 (declare-fun str_lenptr (Iface) Int)
+; lexdec(s): s is a YANG integer-value or decimal-value (RFC 6020 section 12), i.e. it matches
+; -?(0|[1-9][0-9]*)(\.[0-9]+)?  (parse.rangeBoundaryRe). Such a literal never parses to NaN or an infinity.
+(declare-fun lexdec (String) Bool)
+(assert (forall ((s String)) (! (=> (lexdec s) (and (not (fp.isNaN (parse_float s))) (not (fp.isInfinite (parse_float s))))) :pattern ((lexdec s)))))
